@@ -587,7 +587,7 @@ def part_b(ctx, ok):
                             ctx.violation("tf-kernel-vs-curve", msg, {"tf": tf, "dir": d_, "x_bits": f"{f2b(x):08x}"}, key=key)
                         else:
                             ctx.failed_obligations.append("correspondence transfer kernel vs Float model: " + msg)
-    # the one-channel path gives the same numbers (or panics for HLG: known finding)
+    # the one-channel path gives the same numbers as three equal channels (HLG included: its OOTF mixes R = G = B)
     for tf in list(CURVES):
         xs = grid(rng, 200, [])
         for d_ in ("enc", "dec"):
@@ -601,7 +601,7 @@ def part_b(ctx, ok):
                     mg, _ = tf_call(ctx, "tfg", tf, d_, "-", 13, xs, model=True)
                     if canon_impl(g or "") != mg:
                         ctx.failed_obligations.append(f"correspondence grey {tf} {d_}: impl {canon_impl(g or '')!r} model {mg!r}")
-            elif tf != "hlg" and a != g:
+            elif a != g:       # HLG too: since the grey-HLG repair the one-channel path is R = G = B by construction
                 ctx.violation("grey-path-differs", f"{tf} {d_}: one-channel result differs from the RGB one",
                               {"line": lineg[:200]}, key=f"tf-grey:{tf}")
 
